@@ -86,6 +86,19 @@ func (d *SDisk) Record(on bool) {
 	d.mu.Unlock()
 }
 
+// StartRecording atomically snapshots the contents and starts the event list.
+func (d *SDisk) StartRecording() *SDisk {
+	d.mu.Lock()
+	defer d.mu.Unlock()
+	n := NewSDisk(d.size)
+	for a, b := range d.blocks {
+		n.blocks[a] = b
+	}
+	d.rec = true
+	d.events = nil
+	return n
+}
+
 func (d *SDisk) NEvents() int {
 	d.mu.Lock()
 	defer d.mu.Unlock()
